@@ -121,6 +121,12 @@ def gen_grammars(prop, tier, n, profile):
                 if gg.classify(tb) != 'sr': continue
                 g = gg.with_precedence(g, rnd)
             if gg.classify(ref_lr1.build(g)) in ('rr', 'acc'): continue
+            if rnd.random() < 0.3:
+                # the way a functor is attached ('>=' or '>>=', before or after an explicit [n]) must not matter for the table
+                g = gg.clone(g)
+                for i, r in enumerate(g.rules):
+                    if rnd.random() < 0.6: g.rules[i] = gg.Rule(r.lhs, r.rhs, r.prec, 'x')
+                g.note += '+ctxftors'
             add(g)
     elif profile == 'recovery':     # C08
         for g in gg.err_core(): add(g)
@@ -734,9 +740,12 @@ def c12(tier):
     # (2) default capacities of parse table and lexer automaton, both construction modes
     gs = gen_grammars('C12', tier, 120 if q else 2500, 'allclasses')
     gs = [g for g in gs if gg.classify(ref_lr1.build(g)) != 'acc'] + [lxc.token_grammar(ts, 'tokens') for ts in lxc.fixed_termsets()] + [lxc.token_grammar(lxc.gen_termset(rnd), 'tokens') for _ in range(16 if q else 300)]
-    beyond = [g for g in gs if ref_lr1.beyond_default_cap(g)] + capc.beyond_cap_witnesses()
+    ncw, ncb = capc.near_cap_corpus(q)
+    beyond = [g for g in gs + ncw + ncb if ref_lr1.beyond_default_cap(g)] + capc.beyond_cap_witnesses()
     gs = [g for g in gs if not ref_lr1.beyond_default_cap(g)]
-    merge(ck, common.pmap(capc.default_caps_worker, [{'grammars': [g.to_json() for g in c]} for c in chunks(gs, 8)]))
+    ncw = [g for g in ncw + ncb if not ref_lr1.beyond_default_cap(g)]
+    ck.count('near_cap_grammars_within_default_cap', len(ncw))
+    merge(ck, common.pmap(capc.default_caps_worker, [{'grammars': [g.to_json() for g in c]} for c in chunks(gs, 8)] + [{'grammars': [g.to_json()]} for g in ncw]))
     merge(ck, common.pmap(capc.beyond_cap_worker, [{'grammar': g.to_json()} for g in beyond] + [{'grammar': gg.shuffle_symbols(g, rnd).to_json()} for g in capc.beyond_cap_witnesses()]))
     # (3) user limits at need-1 / need / need+1
     lg = [g for g in gen_grammars('C12b', tier, 60 if q else 600, 'plain') if ref_lr1.build(g).lr1 and 4 <= len(ref_lr1.build(g).states) <= 40]
